@@ -393,6 +393,14 @@ impl<'a> MutEnc<'a> {
         }
         if items.is_empty() {
             if self.hit() {
+                if is_table && self.rng.chance(1, 2) {
+                    // zero-field table followed by raw bytes: accepted in compatible mode only
+                    let k = self.rng.range(1, 8) as usize;
+                    let mut out = le32(4 + k).to_vec();
+                    out.extend((0..k).map(|_| self.rng.next() as u8));
+                    self.applied.push("empty-table-trailing");
+                    return out;
+                }
                 self.applied.push("empty-dyn-total");
                 return le32(*self.rng.pick(&[0usize, 3, 5, 8])).to_vec();
             }
